@@ -85,6 +85,17 @@ def core_build(cfg):
     Returns dict(dir, lib, incs).  Ninja makes this a no-op when nothing changed."""
     if cfg in _core_done:
         return _core_done[cfg]
+    import fcntl
+    os.makedirs(BUILD, exist_ok=True)
+    with open(os.path.join(BUILD, ".core-%s.lock" % cfg), "w") as lf:
+        fcntl.flock(lf, fcntl.LOCK_EX)      # several ./check processes may share one build tree
+        try:
+            return _core_build_locked(cfg)
+        finally:
+            fcntl.flock(lf, fcntl.LOCK_UN)
+
+
+def _core_build_locked(cfg):
     flags = CONFIGS[cfg] + " -D" + GUARD
     d = os.path.join(BUILD, "core-" + cfg)
     os.makedirs(d, exist_ok=True)
